@@ -75,7 +75,7 @@ class SimThread(object):
     __slots__ = (
         "idx", "name", "baton", "pending", "finished", "started", "exc", "root_key",
         "ident", "timed_out", "deadline", "dead", "inject", "obj", "is_client", "steps",
-        "blocked_site",
+        "blocked_site", "spin_key", "spin_epoch",
     )
 
     def __init__(self, idx, name):
@@ -97,17 +97,38 @@ class SimThread(object):
         self.is_client = False
         self.steps = 0
         self.blocked_site = None
+        self.spin_key = None
+        self.spin_epoch = -1
 
 
 # ---------------------------------------------------------------------------
 # the base lock
 # ---------------------------------------------------------------------------
 
+import weakref as _weakref
+
+_GLOBAL_LOCKS = _weakref.WeakSet()   # ShimLocks created outside executions (module-level state)
+_GLOBAL_RLOCKS = _weakref.WeakSet()
+
+
+def reset_global_locks():
+    """Module-level locks may be left held by threads killed at the end of the previous
+    execution; every execution starts with all of them free."""
+    for l in list(_GLOBAL_LOCKS):
+        l.owner = None
+    for r in list(_GLOBAL_RLOCKS):
+        r._owner = None
+        r._count = 0
+
+
 class ShimLock(object):
     __slots__ = ("owner", "__weakref__")
 
     def __init__(self):
         self.owner = None
+        s = CUR
+        if s is None or s.mode != RUN:
+            _GLOBAL_LOCKS.add(self)
 
     def acquire(self, blocking=True, timeout=-1):
         s = CUR
@@ -412,12 +433,17 @@ class Scheduler(object):
         if c in atomic:
             root = f
             caller = f.f_back
-            while caller is not None and _file_class(caller.f_code.co_filename) in atomic:
-                root = caller
+            while caller is not None:
+                fc = _file_class(caller.f_code.co_filename)
+                if fc in atomic:
+                    root = caller
+                elif fc != F_SHIM:
+                    break
                 caller = caller.f_back
-            key = (id(root), id(caller), caller.f_lasti if caller is not None else -1)
-            same = key == me.root_key
-            me.root_key = key
+            # identity of the outermost stdlib frame; a strong reference is kept until the
+            # thread's next scheduling point so that the address cannot be reused meanwhile
+            same = root is me.root_key
+            me.root_key = root
             if same:
                 return False
             # entry into a stdlib call: preemptible iff called (transitively) from library code
@@ -451,7 +477,13 @@ class Scheduler(object):
                 self.unwinding = True
             raise StepLimit()
         threads = self.threads
-        if me is not None and not preemptible and self._enabled(me):
+        if me is not None and me is self.last_run:
+            self.run_len += 1
+        else:
+            self.run_len = 0
+            self.last_run = me
+        unfair = self.run_len > self.FAIR
+        if me is not None and not preemptible and not unfair and self._enabled(me):
             return me
         while True:
             en = [t for t in threads if t.started and not t.finished and self._enabled(t)]
@@ -463,6 +495,17 @@ class Scheduler(object):
                 return None
             self._advance_time(waiters)
         me_en = me is not None and me in en
+        if me_en and len(en) > 1 and me.pending is not None and me.pending[0] == "yield":
+            # a spinning thread (repeated immediate return from a timed wait): others go first
+            en = [t for t in en if t is not me]
+            me_en = False
+        if me_en and unfair and len(en) > 1:
+            # fairness: a thread that ran FAIR consecutive scheduling points while others
+            # are enabled (a spin loop) must let another thread run; not a preemption
+            en = [t for t in en if t is not me]
+            me_en = False
+            self.run_len = 0
+            self.fair_switches += 1
         if me_en and not preemptible:
             return me
         if len(en) == 1:
@@ -513,6 +556,7 @@ class Scheduler(object):
         if me.pending is not None and me.pending[0] in ("acq", "join", "sleep") and not self._enabled_quiet(me):
             me.blocked_site = self._site()
         self.cur = nxt
+        self.switches += 1
         nxt.baton.release()
         me.baton.acquire()
         self._wake(me)
@@ -593,6 +637,11 @@ class Scheduler(object):
         self._yield(me, explicit=True)
         me.pending = None
 
+    def op_spin_yield(self, me):
+        me.pending = ("yield",)
+        self._yield(me, explicit=True)
+        me.pending = None
+
     def op_join(self, me, thobj, timeout):
         target = thobj._sim
         if target is None:
@@ -651,6 +700,10 @@ class Scheduler(object):
             finally:
                 sys.settrace(None)
                 sys.setprofile(None)
+                try:
+                    t.root_key = None  # may free objects (weakref callbacks run as this thread)
+                except BaseException:  # noqa
+                    pass
                 t.finished = True
                 t.pending = None
                 t.deadline = None
@@ -692,6 +745,11 @@ class Scheduler(object):
 
     tracefn = None
     profilefn = None
+    FAIR = 400
+    switches = 0
+    run_len = 0
+    last_run = None
+    fair_switches = 0
     fatal = None
     unwinding = False
 
@@ -725,6 +783,7 @@ class Scheduler(object):
             sys.setprofile(None)
             main.finished = True
             self.mode = TEARDOWN
+            main.root_key = None
             stuck = self._teardown()
             CUR = None
             self.mode = IDLE
@@ -806,6 +865,23 @@ def current_name():
 # ---------------------------------------------------------------------------
 
 _installed = False
+_orig_event_wait = None
+
+
+def _event_wait(self, timeout=None):
+    """threading.Event.wait with spin detection: a second consecutive immediate return of a
+    timed wait on the same (already set) event, with no other thread having run in between,
+    lets the other enabled threads run first (fair scheduling; not a preemption)."""
+    s = CUR
+    if timeout is not None and s is not None and s.mode == RUN and self._flag:
+        me = s.by_ident.get(_get_ident())
+        if me is not None:
+            key = id(self)
+            if me.spin_key == key and me.spin_epoch == s.switches:
+                s.op_spin_yield(me)
+            me.spin_key = key
+            me.spin_epoch = s.switches
+    return _orig_event_wait(self, timeout)
 
 
 def _future_hash(self):
@@ -838,6 +914,15 @@ def install():
     _orig_current_thread = threading.current_thread
     threading.Lock = ShimLock
     threading._allocate_lock = ShimLock
+    _orig_rl_init = threading._PyRLock.__init__
+
+    def _rl_init(self, *a, **k):
+        _orig_rl_init(self, *a, **k)
+        s_ = CUR
+        if s_ is None or s_.mode != RUN:
+            _GLOBAL_RLOCKS.add(self)
+
+    threading._PyRLock.__init__ = _rl_init
     threading.RLock = threading._PyRLock
     threading._CRLock = None
     threading.Thread = ShimThread
@@ -853,4 +938,7 @@ def install():
     import concurrent.futures.thread  # noqa: F401
 
     base.Future.__hash__ = _future_hash
+    global _orig_event_wait
+    _orig_event_wait = threading.Event.wait
+    threading.Event.wait = _event_wait
     _installed = True
